@@ -620,6 +620,125 @@ def pack(rng, D, units, prefix, start, nspecs, single=False):
     return cases, k
 
 
+
+# ---------------------------------------------------------------------------------------------
+# L1 sweep: selects additional literals for the L2 run (never a verdict by itself)
+
+L1_ALIGN = ["", "<", "^", ">", "*<", "é^", "0>", " <"]
+L1_ARGNAMES = ["", "0", "1", "_0", "n"]
+L1_ARGS = [("none", []), ("ident", ["_0"]), ("aliased", ["n = _0"]), ("deref", ["*_0"])]
+L1_WRAPS = [None, ("a", ""), ("", " "), ("{{", ""), ("", "}}")]
+L1_BODY = re.compile(r"\{ let _0 = & self \. 0 ; (.*) \} \}$", re.S)
+L1_DELEG = re.compile(r"^derive_more :: core :: fmt :: (\w+) :: fmt \((.*) , __derive_more_f\)$", re.S)
+
+
+def l1_expected(argname, nargs_form, spec, letter, wrap):
+    """Class of `#[d("<wrap>{argname:spec letter}<wrap>", args)] struct S(Spy);` by construction."""
+    nargs = 0 if nargs_form == "none" else 1
+    if argname in ("", "0"):
+        valid = "ok" if nargs == 1 else "mustfail"
+    elif argname == "1":
+        valid = "mustfail"
+    elif argname == "_0":
+        valid = "ok" if nargs == 0 else "optional"
+    else:   # "n"
+        valid = "ok" if nargs_form == "aliased" else "optional"
+    if valid != "ok":
+        return valid
+    bare = not spec and letter not in ("x?", "X?") and wrap is None
+    return "pt" if bare else "in"
+
+
+def l1_universe():
+    for argname in L1_ARGNAMES:
+        for af, args in L1_ARGS:
+            for al in L1_ALIGN:
+                for sign in ("", "+", "-"):
+                    for alt in ("", "#"):
+                        for zero in ("", "0"):
+                            for width in ("", "8"):
+                                for prec in ("", ".3"):
+                                    for letter in RFN:
+                                        for ws in (False, True):
+                                            yield (argname, af, al + sign + alt + zero + width + prec, letter, ws, None)
+    # text / escapes around every bare and singly-modified placeholder
+    for argname in L1_ARGNAMES:
+        for af, args in L1_ARGS:
+            for spec in ("", ">", "+", "#", "0", "8", ".3"):
+                for letter in RFN:
+                    for wrap in L1_WRAPS[1:]:
+                        yield (argname, af, spec, letter, False, wrap)
+
+
+def l1_unit(D, argname, af, spec, letter, ws, wrap, mode):
+    """The L2 unit for an L1 tuple: `struct S(Spy)` with the same attribute."""
+    u = Unit()
+    u.kind, u.fields, u.target = "tuple", [("_0", "0", "spy")], 0
+    lit = (wrap[0] if wrap else "") + ph(argname, spec, letter, ws=ws) + (wrap[1] if wrap else "")
+    u.lit = lit
+    u.attr = ", ".join([rs_str(lit)] + dict(L1_ARGS)[af])
+    u.P = RTRAIT[letter]
+    u.ref = {"none": "*fr", "ident": "fr", "aliased": "fr", "deref": "*fr"}[af]
+    u.mode = mode
+    u.form = "l1/%s/%s" % ({"": "implicit", "0": "index0", "1": "index1", "_0": "name", "n": "alias"}[argname], af)
+    if mode == "pt" and u.P == "Pointer" and af in ("ident", "aliased"):
+        u.mode = "ptrident"
+    u.needs_struct = True
+    return u
+
+
+def l1_sweep(ctx):
+    """Expands a large set of single-placeholder literals in-process and returns the tuples whose expansion
+    shape (`Trait::fmt(..)` vs `write!`) is not the one their class leads to expect."""
+    from . import inproc
+    rng = ctx.rng
+    # `{n}` without arguments names an outer binding (not classed by the property, see gen_obs_outer_binding)
+    uni = [t for t in dict.fromkeys(l1_universe()) if not (t[0] == "n" and t[1] == "none")]
+    ctx.extra["l1_universe"] = len(uni)
+    n = ctx.pick(40000, len(uni))
+    if n < len(uni):
+        # the pass-through class is tiny: keep all of it, sample the rest
+        pt = [t for t in uni if l1_expected(t[0], t[1], t[2], t[3], t[5]) == "pt"]
+        rest = [t for t in uni if l1_expected(t[0], t[1], t[2], t[3], t[5]) != "pt"]
+        uni = pt + rng.sample(rest, n - len(pt))
+    jobs = []
+    for i, (argname, af, spec, letter, ws, wrap) in enumerate(uni):
+        D = ALL9[i % 9]
+        lit = (wrap[0] if wrap else "") + ph(argname, spec, letter, ws=ws) + (wrap[1] if wrap else "")
+        item = "#[%s(%s)] struct S(Spy);" % (ATTR[D], ", ".join([rs_str(lit)] + dict(L1_ARGS)[af]))
+        jobs.append((str(i), D, item))
+    out = inproc.expand_many(jobs)
+    odd = []
+    for i, t in enumerate(uni):
+        o = out.get(str(i))
+        if o is None:
+            raise Inconclusive("in-process harness returned no result for an L1 item")
+        ctx.bump("l1_expansions")
+        exp = l1_expected(t[0], t[1], t[2], t[3], t[5])
+        shape = "other"
+        if o.get("kind") == "ok":
+            m = L1_BODY.search(o.get("tokens", ""))
+            body = m.group(1).strip() if m else ""
+            d = L1_DELEG.match(body)
+            if d:
+                shape = "delegate:" + d.group(1)
+            elif body.startswith("derive_more :: core :: write !"):
+                shape = "write"
+        else:
+            shape = o.get("kind", "?")
+        if exp == "pt":
+            agree = shape == "delegate:" + RTRAIT[t[3]]
+        elif exp == "in":
+            agree = shape == "write"
+        else:       # must not compile / rejected by write!: anything but a delegation is left to rustc
+            agree = not shape.startswith("delegate")
+        ctx.bump("l1_%s" % exp)
+        if not agree:
+            ctx.bump("l1_shape_disagreements")
+            odd.append((ALL9[i % 9], t, exp, shape))
+    return odd
+
+
 # ---------------------------------------------------------------------------------------------
 
 def classify_mismatch(c, u, ev):
@@ -651,6 +770,28 @@ def run(ctx):
         for D in ALL9:
             cs, ko = pack(rng, D, [gen_optional(rng, D, w) for w in OPTIONAL], "o", ko, ctx.pick(8, 16), single=True)
             opt_cases += cs
+    # L1 sweep: literals whose expansion does not have the expected shape are added to the L2 workloads
+    odd = l1_sweep(ctx)
+    if odd:
+        byk = {}
+        for o in odd:
+            byk.setdefault((o[2], o[3], o[1][0], o[1][1]), []).append(o)
+        chosen = []
+        for key in sorted(byk):
+            chosen += rng.sample(byk[key], min(3, len(byk[key])))
+        chosen = chosen[:ctx.pick(90, 300)]
+        ctx.extra["l1_promoted"] = len(chosen)
+        for D, t, exp, shape in chosen:
+            u = l1_unit(D, t[0], t[1], t[2], t[3], t[4], t[5], exp)
+            if exp == "mustfail":
+                cs, km = pack(rng, D, [u], "m", km, 0, single=True)
+                mf_cases += cs
+            elif exp == "optional":
+                cs, ko = pack(rng, D, [u], "o", ko, ctx.pick(8, 16), single=True)
+                opt_cases += cs
+            else:
+                cs, k = pack(rng, D, [u], "k", k, nspecs, single=True)
+                cases += cs
     for c in mf_cases:
         c.must_fail = True
         c.body = ""
